@@ -298,14 +298,13 @@ class SymEnv(flow.Client):
                            for c in ast.walk(a) if isinstance(c, ast.Call))
             if pure and (t, not truth) in facts:
                 continue            # this world assumed the opposite earlier: infeasible
-            if self.keep_fact is not None and not self.keep_fact(t):
-                out.add((env_t, facts))
-                continue
-            extra = set()
+            new_facts = {(t, truth)}
             if truth and isinstance(a, ast.Compare) and len(a.ops) == 1 and isinstance(a.ops[0], (ast.Is, ast.Eq)) \
                     and isinstance(a.comparators[0], ast.Constant) and isinstance(a.comparators[0].value, bool):
-                extra.add((self.ntext(a.left), a.comparators[0].value))      # `e is True` holds: e holds
-            out.add((env_t, facts | {(t, truth)} | extra))
+                new_facts.add((self.ntext(a.left), a.comparators[0].value))      # `e is True` holds: e holds
+            if self.keep_fact is not None:
+                new_facts = {nf for nf in new_facts if self.keep_fact(nf[0])}
+            out.add((env_t, facts | new_facts))
         return frozenset(out) if out else None
 
     def on_expr(self, node, state):
